@@ -357,12 +357,12 @@ class SymRun:
     def run_check(self):
         """the crate's own EGraph::check() + the listed consistency conditions; a panic inside is recorded, not propagated"""
         ex = self.ex
-        out = {'check': 'ok'}
+        out = {'check': 'ok'}; _d0 = ex.depth()
         try:
             ex.call(self.M('EGraph::check'), [self.egref])
         except Panic as p:
             out['check'] = 'panic: ' + p.msg + ' @ ' + short_fn(p.where or (ex.stack[-1] if ex.stack else '?'))
-            del ex.stack[:]
+            ex.unwind_to(_d0)
             return out
         # every e-node listed for a class looks up to that class; nodes mention all class slots
         bad = []
